@@ -117,7 +117,7 @@ func runPlot(t *simrt.Tape, keep bool) simrt.Outcome {
 		ts := base.Add(time.Duration(t.Choose(1000)) * time.Millisecond)
 		first := ts
 		errMode, errFrom := t.Choose(4), t.Choose(n+1) // 0, 3: errors sprinkled at random
-		soak := t.Prob(1, 6)                            // a soak test: minutes between requests, days in total
+		soak := t.Prob(1, 6)                           // a soak test: minutes between requests, days in total
 		for i := 0; i < n; i++ {
 			gapKind := t.Choose(8)
 			if soak && t.Prob(1, 2) {
